@@ -3,7 +3,8 @@ package registry
 // Enumeration of the loaded registry (in-package, injected with go test -overlay):
 // the side condition regInv assumed by the collector contracts, checked entry by
 // entry instead of deduced: every element found under (enterprise, id) carries that
-// id and enterprise number, has a name, and a fixed-width type has its RFC width.
+// id and enterprise number, has a name, and a fixed-width type has its RFC width;
+// and regNameInv (aggregation seeding): every by-name entry carries that name.
 
 import (
 	"encoding/json"
@@ -73,6 +74,15 @@ func TestVerifEnumRegistry(t *testing.T) {
 			}
 			if bad != "" && !r.Reproduced {
 				r.Reproduced, r.Clause, r.Detail, r.Input = true, "regInv", bad, map[string]interface{}{"enterprise": ent, "id": id}
+			}
+		}
+	}
+	// regNameInv: every by-name entry is a non-nil element that carries that name
+	for ent, m := range globalRegistryByName {
+		for name, e := range m {
+			r.Tried++
+			if (e == nil || e.Name != name) && !r.Reproduced {
+				r.Reproduced, r.Clause, r.Detail, r.Input = true, "regNameInv", "by-name entry is nil or carries another name", map[string]interface{}{"enterprise": ent, "name": name}
 			}
 		}
 	}
